@@ -30,8 +30,11 @@ trip itself, for every text:
   * `grammar_roundtrip`, `grammar_roundtrip_layout` (`Proofs/Statements.lean`) — whole files: statements
     of the three kinds over the operator ladder, under every admissible layout, through the model of
     `Grammar::parse` with the fuel it provides itself.
-Open: layout and whole files for the larger fragment of `ladder_roundtrip_full` (escapes, descriptions,
-juxtaposition); `{{{ }}}` commands containing `}`.
+  * `ladder_roundtrip_full_layout`, `grammar_roundtrip_full_layout` (`Proofs/LadderFullLayout.lean`,
+    `Proofs/StatementsFull.lean`) — both extensions together: whole files over the larger fragment under
+    every admissible layout.
+Open: blanks inside `{{{ }}}` and commands containing `}`; redundant parentheses; the `(…)` forms the
+printer never chooses.
 -/
 import Complgen.Model.Parse
 import Complgen.Proofs.Lexer
@@ -39,6 +42,8 @@ import Complgen.Proofs.Ladder
 import Complgen.Proofs.LadderLayout
 import Complgen.Proofs.LadderFull
 import Complgen.Proofs.Statements
+import Complgen.Proofs.LadderFullLayout
+import Complgen.Proofs.StatementsFull
 namespace Complgen.Props.C05
 open Complgen Complgen.Parse
 
@@ -192,5 +197,35 @@ example : ∃ g', parse "# example\ncmd\ta <X> ;\n\n# next\n<X>\t=b | [c] ".toLi
   have h := Parse.grammar_roundtrip_layout exGrammar exGrammar_nf exLayout exLayout_adm
   rwa [show ppGrammarL exLayout exGrammar =
     "# example\ncmd\ta <X> ;\n\n# next\n<X>\t=b | [c] ".toList by decide] at h
+
+/-- **The larger fragment under every admissible layout** (`Proofs/LadderFullLayout.lean`): escaped
+literals, descriptions (a possibly empty stretch of layout before the `"`, not starting with `#`),
+descriptions over groups, words by juxtaposition (no layout inside a word), and the operators. -/
+theorem ladder_roundtrip_full_layout (e : Expr) (hnf : Full.NF' e) (lay : Full.Layout') (adm : lay.Adm)
+    (rest : List Char) (hrest : Follows rest) (s : PState) (hs : s.rest = Full.ppL' lay 0 e ++ rest)
+    (fuel : Nat) (hfuel : Full.needF e ≤ fuel) :
+    ∃ e', fallback fuel s = some (s.adv (Full.ppL' lay 0 e).length, e') ∧ e'.eraseSpans = e.eraseSpans :=
+  fallback_roundtrip_full_layout e hnf lay adm rest hrest s hs fuel hfuel
+
+/-- where layout may *not* stand, with kernel-evaluated runs of the parser model: a comment directly
+after a word and before its description is part of the word; a blank inside a word splits it -/
+theorem layout_positions_needed :
+    Full.readsAs "a#c\n\"d\"".toList (.term "a" (some "d") 0 ⟨0, 0, 0⟩) = false ∧
+    Full.readsAs "a#c\n\"d\"".toList (.term "a#c" (some "d") 0 ⟨0, 0, 0⟩) = true ∧
+    Full.readsAs "--o= <V>".toList
+      (.sub (.seq (ExprL.ofList [.term "--o=" none 0 ⟨0, 0, 0⟩, .nonterm "V" 0 ⟨0, 0, 0⟩]) ⟨0, 0, 0⟩) 0 ⟨0, 0, 0⟩) = false :=
+  ⟨Full.descr_hash_literal.2.2.1, Full.descr_hash_literal.2.2.2, Full.blank_in_word.2.1⟩
+
+/-- **Whole files over the larger fragment, every admissible layout** (`Proofs/StatementsFull.lean`),
+with the fuel `Grammar::parse` provides. -/
+theorem grammar_roundtrip_full_layout (g : Grammar) (hg : ∀ st ∈ g, Full.StmtNF' st) (G : Full.GLayout')
+    (adm : G.Adm g) :
+    ∃ g', parse (Full.ppGrammarL' G g) = .ok g' ∧ g'.map Stmt.eraseSpans = g.map Stmt.eraseSpans :=
+  Parse.grammar_roundtrip_full_layout g hg G adm
+
+/-- the plain printer of whole files over the larger fragment -/
+theorem grammar_roundtrip_full (g : Grammar) (hg : ∀ st ∈ g, Full.StmtNF' st) :
+    ∃ g', parse (Full.ppGrammar' g) = .ok g' ∧ g'.map Stmt.eraseSpans = g.map Stmt.eraseSpans :=
+  Parse.grammar_roundtrip_full g hg
 
 end Complgen.Props.C05
